@@ -10,4 +10,12 @@ def jobs(tier, seed, prop='C14'):
                             sample={'parity levels': n, 'blocks in each parity file / allocated / used': 'symbolic', 'force_full, force_realloc, prehash, need_write': 'symbolic', 'failures of create/resize/hash/process': 'symbolic'}))
     J.append(vf.Job('%s/state_sync/negctl' % prop, ['C14_statesync.c', 'stubs/log_stubs.c'], units=U, entry='c14_negctl', defines=['NLEV=1', 'NEGCTL'], cflags=vf.PATHMAX64, unwind=26, kind='negctl', native=False,
                     decisive=r'VF:|unwinding', sample={'wrong_oracle': 'content saved after the stripes'}))
+    # block size / hash size interlocks: verbatim 'z' and 'y' record handlers of state_read_content
+    import slicer
+    US = [vf.Unit('cmdline/state.c', flags=vf.PATHMAX64, transform=slicer.slices(['z', 'y']), remove=['__CPROVER_file_local_state_c_decoding_error']), vf.Unit('cmdline/stream.c', flags=vf.PATHMAX64)]
+    if prop == 'C14':
+        for w, nm in ((0, 'blocksize'), (1, 'hashsize')):
+            J.append(vf.Job('%s/records/%s' % (prop, nm), ['C14_records.c', 'stubs/log_stubs.c'], units=US, entry='c14_record_zy', defines=['WHICH=%d' % w], cflags=vf.PATHMAX64, unwind=10, timeout=900, mem_gb=8, native=False,
+                            decisive=r'VF:|unwinding', funcs=['state_read_content (record handler %s, verbatim slice)' % ('z' if w == 0 else 'y'), 'sgetb32'], cost=20,
+                            sample={'record': 'z' if w == 0 else 'y', 'recorded value': 'all 32-bit values', 'configured value': 'symbolic', 'no configuration file (auto-assign)': 'symbolic'}))
     return J
